@@ -59,6 +59,11 @@ CHECKS["C11"] = dict(
     note="Trusted: pysym interpreter/models, z3. Names up to 2 characters; three fixed @string values.",
     ref="§4 C11")
 
+CHECKS["C05"] = dict(
+    text="Grammar-derived symbolic templates (single blocks, all ordered pairs, @string before/after use; thorough: triples) combined with symbolic format options (trailing_comma, value_column 0..12 or auto, symbolic indent and separator whitespace) are pushed through the real parse_string -> write_string -> parse_string -> write_string; z3 decides per final world that the second library equals the first and that the second text equals the first character for character.",
+    note="Trusted: pysym interpreter/models (deepcopy = interpreted stdlib copy), grammar recognisers, z3. Whitespace-only separators/indents, no duplicate keys, @comment bodies not ending in a backslash after stripping.",
+    ref="§4 C05")
+
 NOT_YET = "check not built yet in this round (engine exists; harness pending)"
 
 def main():
